@@ -25,6 +25,9 @@ func ResyncScenario(run *harness.Run, key string, r *rand.Rand, c Case, prop str
 	e.IDs = []string{e.RunID, strings.Repeat("0", 40)}
 	mk := func(h string) (*gen.Stream, *gen.Cmd) {
 		st := gen.GenStream(r, gen.StreamOptions{Hist: h, NCmds: 6 + r.Intn(10), MaxDB: 2, PSelect: 0.25, PTxn: 0.1, PNoise: 0.15, MaxTxnLen: 4, StartDB: -1})
+		if (drive.ProjCfg{TargetDb: -1, DbBlacklist: c.DbBlacklist}).DbOut(st.LastDB()) { // the completion sentinel must not be filtered out
+			st.AppendSelect(0)
+		}
 		return st, st.AppendSentinel(st.LastDB())
 	}
 	st1, end1 := mk("r1" + strings.TrimPrefix(key, "case-"))
